@@ -2,7 +2,7 @@
 from fractions import Fraction
 
 import gen_dsm
-from gen_dsm import MODELS, driver, fnum, grid, prm_spec
+from gen_dsm import MODELS, driver, fnum, grid, prm_spec, prm_value
 from proto import rng
 
 
@@ -105,4 +105,36 @@ def gen_dsmhist(tier, seed):
         stats["cases"] += 1
         stats["kinds"][kind] = stats["kinds"].get(kind, 0) + 1
         stats["via_definition"] += int(via)
+    # equal raw numbers over other dimensions: two non-time dimensions of one length; the second parameter set
+    # carries the very numbers of the first, but along the other dimension (or over both in the other order), so
+    # a set_prms that compares what it is handed instead of what it means keeps stale tables (seed C17_r6_1).
+    # Drawn from a generator of their own, after the others, so the cases above stay what they were.
+    r2 = rng(seed, "dsm-history-sameraw")
+    for j in range(12 if tier == "quick" else 120):
+        n = r2.randint(3, 5)
+        items = grid(r2, r2.choice(["unit", "const", "uneven"]), n)
+        k = r2.choice([2, 2, 3])
+        letters, shape, m = ["t", "r", "g"], [n, k, k], k * k
+        cls = r2.choice(list(MODELS))
+        span = gen_dsm.item_span(items)
+        both = r2.random() < 0.4
+        d0, d1 = (["r", "g"], ["g", "r"]) if both else (["r"], ["g"])
+        ps0, ps1 = {}, {}
+        for p_ in MODELS[cls]:
+            vals = []
+            while len(set(vals)) < 2:
+                vals = [fnum(prm_value(r2, p_, span)) for _ in range(m if both else k)]
+            ps0[p_] = {"kind": "array", "dims": d0, "vals": vals}
+            ps1[p_] = {"kind": "array", "dims": d1, "vals": list(vals)}
+        kind = r2.choice(["idsm", "sdsm"])
+        dk = "nonneg" if kind == "idsm" else "any"
+        ops = [["compute"], ["setprms", 1], ["compute"], ["setprms", 0], ["readsf"], ["compute"],
+               ["setprms", 1], ["setdriver", driver(r2, n, m, dk)], ["compute"]]
+        specs.append({"id": ncases + j, "items": items, "extra": [k, k], "cls": cls,
+                      "inflow_at": r2.choice(["start", "middle", "end"]), "n_pts": r2.choice([1, 2, 3]),
+                      "psets": [ps0, ps1], "kind": kind, "solver": r2.choice(["manual", "lapack"]),
+                      "via_definition": r2.random() < 0.3, "k0": 0, "driver0": driver(r2, n, m, dk), "ops": ops})
+        stats["cases"] += 1
+        stats["same_raw_numbers_other_dims"] = stats.get("same_raw_numbers_other_dims", 0) + 1
+        stats["kinds"][kind] = stats["kinds"].get(kind, 0) + 1
     return specs, stats
